@@ -1,10 +1,10 @@
 (* Extraction of the C20 text models (ExtrOcamlBasic only; characters stay Coq's ascii datatype). *)
 From Coq Require Extraction ExtrOcamlBasic.
-From Verif Require Import Fmt.TextModel Fmt.X86FmtModel Fmt.X86InstModel Fmt.A64FmtModel Fmt.LogLine Fmt.LabelVirt Fmt.DataNode Fmt.X86Explain Fmt.RegList Fmt.VirtNames Fmt.FuncValue Fmt.LogOptions Fmt.Directives.
+From Verif Require Import Fmt.TextModel Fmt.X86FmtModel Fmt.X86InstModel Fmt.A64FmtModel Fmt.LogLine Fmt.LabelVirt Fmt.DataNode Fmt.X86Explain Fmt.RegList Fmt.VirtNames Fmt.FuncValue Fmt.LogOptions Fmt.Directives Fmt.A64Virt Fmt.FuncLine Fmt.Transcript Fmt.A64VirtRead Fmt.A32Regs.
 Extraction Blacklist List String Int.
 Extraction "fmt.ml" TextModel.fmt_num TextModel.parse_num TextModel.fmt_hexcol TextModel.parse_hexcol TextModel.finish_line
   TextModel.lex TextModel.render
   X86FmtModel.rt_of_code X86FmtModel.rt_code X86FmtModel.fmt_reg X86FmtModel.fmt_operand X86FmtModel.parse_operand X86FmtModel.canon_op
   X86InstModel.fmt_inst X86InstModel.parse_inst X86InstModel.canon_inst
   A64FmtModel.a64rt_of_code A64FmtModel.a64rt_code A64FmtModel.a64_fmt_operand A64FmtModel.parse_a64_operand
-  A64FmtModel.a64_fmt_inst A64FmtModel.parse_a64_inst A64FmtModel.a64_canon_inst A64FmtModel.a64_canon_op LogLine.parse_log_line LabelVirt.fmt_label LabelVirt.x86_fmt_virt LabelVirt.parse_virt LabelVirt.parse_anon_label LabelVirt.fmt_mem_virt LabelVirt.fmt_inst_virt LabelVirt.fmt_func_ret LabelVirt.a64_fmt_virt DataNode.fmt_node_pos DataNode.fmt_data DataNode.parse_data DataNode.fmt_node X86Explain.fmt_inst_ex RegList.fmt_reglist RegList.a32_reg RegList.parse_reglist VirtNames.read_reg VirtNames.name_okb FuncValue.fmt_func_node FuncValue.x86_rp FuncValue.a64_rp FuncValue.parse_fvalue FuncValue.a64_pr FuncValue.fmt_fvalue LogOptions.log_line LogOptions.label_line LogOptions.parse_log_line_ind X86FmtModel.label_text Directives.fmt_embed_label Directives.fmt_embed_delta Directives.fmt_align_line Directives.parse_embed_label Directives.parse_embed_delta Directives.parse_align_line.
+  A64FmtModel.a64_fmt_inst A64FmtModel.parse_a64_inst A64FmtModel.a64_canon_inst A64FmtModel.a64_canon_op LogLine.parse_log_line LabelVirt.fmt_label LabelVirt.x86_fmt_virt LabelVirt.parse_virt LabelVirt.parse_anon_label LabelVirt.fmt_mem_virt LabelVirt.fmt_inst_virt LabelVirt.fmt_func_ret LabelVirt.a64_fmt_virt DataNode.fmt_node_pos DataNode.fmt_data DataNode.parse_data DataNode.fmt_node X86Explain.fmt_inst_ex RegList.fmt_reglist RegList.a32_reg RegList.parse_reglist VirtNames.read_reg VirtNames.name_okb FuncValue.fmt_func_node FuncValue.x86_rp FuncValue.a64_rp FuncValue.parse_fvalue FuncValue.a64_pr FuncValue.fmt_fvalue LogOptions.log_line LogOptions.label_line LogOptions.parse_log_line_ind X86FmtModel.label_text Directives.fmt_embed_label Directives.fmt_embed_delta Directives.fmt_align_line Directives.parse_embed_label Directives.parse_embed_delta Directives.parse_align_line A64Virt.a64_fmt_inst_virt FuncLine.parse_func_line Transcript.parse_log Transcript.columns_bytes A64VirtRead.read_a64_virt A32Regs.a32_fmt_reg A32Regs.parse_a32_gp.
